@@ -108,6 +108,17 @@ def gen_ops(rng, tier):
         for t, o in pick:
             prev = Z.offset_at(name, t - 1, YMAX)
             jump = abs(o - prev)
+            if o < prev:
+                # both occurrences of ONE repeated wall time, converted back to back (same process, same path, same target): the result
+                # depends on the occurrence, not on what was converted just before
+                w2 = t * US + o * US + rng.randrange(0, jump * US)
+                if len(D.wall_solutions(name, w2, YMAX)) == 2:
+                    for path in ("in_tz", "in_timezone", "astimezone"):
+                        if path not in PATHS:
+                            continue
+                        tgt = _target(rng)
+                        for f in ((0, 1) if rng.random() < 0.5 else (1, 0)):
+                            yield ("intz", path, str(zi), w2, f, tgt)
             for du in (-(jump + 1) * US, -US, -1, 0, 1, US, jump * US):
                 u = t * US + du
                 w, fold = _local(name, u)
